@@ -67,8 +67,9 @@ def short_reads(rep, fns):
             continue
         if fmt_of(f) not in ("bmp", "pnm", "targa"):
             continue        # png/jpeg/tiff hand the bytes to the codec library, which validates them itself (CRC / marker structure)
-        for c, p in R.find(f["body"], lambda x: x.get("k") == "Call" and x.get("member_call") and re.search(r"_device::read$", (x.get("callee") or {}).get("name", "")) and len(x.get("args", [])) == 2):
-            site = (rel(f), f["name"].split("::")[-1], R.key(c["args"][1]))
+        g = R.canonize(f)      # the construct key must not depend on local names: locals appear as % (role: "a local"), members by name
+        for c, p in R.find(g["body"], lambda x: x.get("k") == "Call" and x.get("member_call") and re.search(r"_device::read$", (x.get("callee") or {}).get("name", "")) and len(x.get("args", [])) == 2):
+            site = (rel(f), f["name"].split("::")[-1], re.sub(r"[%#@&]\d+", "%", R.key(c["args"][1])))
             key = "R1:%s:%s::%s:n=%s" % (fmt_of(f), f["name"].split("::")[-2], site[1], site[2])
             ok = not stmt_position(p)
             prev = seen.get(key)
@@ -121,7 +122,8 @@ def fixed_buffers(rep, fns):
              "(i < N, i <= N-1, i != N with unit steps...), or i is the induction variable of a loop whose condition is such a bound")
     seen = {}
     for f in fns:
-        for a, p in R.find(f["body"], lambda x: x.get("k") in ("Assign", "CompoundAssign")):
+        ordinal = {}            # arrays are named by their order of first use in the function, not by their identifier
+        for a, p in sorted(R.find(f["body"], lambda x: x.get("k") in ("Assign", "CompoundAssign")), key=lambda t: t[0].get("line") or 0):
             l = R.strip(a["l"])
             if l is None or l.get("k") != "Subscript":
                 continue
@@ -154,7 +156,11 @@ def fixed_buffers(rep, fns):
                         ok, why = True, "guard %s %s %s" % (var, op, gr)
                 if not ok and mentioned:
                     why = "bounded only by a run-time value"
-            key = "R3:%s:%s::%s:%s[%s]" % (fmt_of(f) or "io", f["name"].split("::")[-2], f["name"].split("::")[-1], R.key(base), ik)
+            bname = R.key(base)
+            if base.get("k") == "DeclRef" and base.get("dk") in ("Var", "ParmVar"):
+                bname = "array%d<%d>" % (ordinal.setdefault(base.get("id") or bname, len(ordinal) + 1), n)
+            iname = ik if R.is_lit(ik) else ("i" if re.fullmatch(r"[\w()+\-]+", ik) and not ik.startswith("_") else ik)
+            key = "R3:%s:%s::%s:%s[%s]" % (fmt_of(f) or "io", f["name"].split("::")[-2], f["name"].split("::")[-1], bname, iname)
             if key not in seen:
                 seen[key] = (ok, why, rel(f), a.get("line"), n)
     for key, (ok, why, file, line, n) in sorted(seen.items()):
@@ -597,16 +603,20 @@ def eof_progress(rep, fns):
         seen.add(m.group(1))
         rep.count("obligations:R6")
         ok = False
-        for c, _ in R.calls_in(f["body"], lambda n: n.endswith("io_error_if")):
+        g = R.canonize(f)          # the character read is a written local: %k, whatever its name
+        chv = None
+        for c, _ in R.calls_in(g["body"], lambda n: n.endswith("io_error_if")):
             k = R.key(c["args"][0])
-            if re.search(r"\(\(ch = .*(getc|get)\(.*\)\) == -1\)", k) or re.search(r"== -1", k) and "ch" in k and ("get(" in k or "getc(" in k):
-                ok = True
-        for c, p in R.calls_in(f["body"], lambda n: n.endswith("io_error")):
-            if any(r in ("-1",) or l in ("-1",) for op, l, r in R.guards(p)):
-                ok = True
-        rets = [R.key(x["e"]) for x, _ in R.find(f["body"], lambda x: x.get("k") == "Return" and x.get("e") is not None)]
+            mm = re.search(r"\(\((%\d+) = .*(getc|get)\(.*\)\) == -1\)", k)
+            if mm:
+                ok, chv = True, mm.group(1)
+        for c, p in R.calls_in(g["body"], lambda n: n.endswith("io_error")):
+            for op, l, r in R.guards(p):
+                if op == "==" and "-1" in (l, r) and re.fullmatch(r"%\d+", l if r == "-1" else r):
+                    ok, chv = True, (l if r == "-1" else r)
+        rets = [R.key(x["e"]) for x, _ in R.find(g["body"], lambda x: x.get("k") == "Return" and x.get("e") is not None)]
         key = "R6a:%s::getc" % m.group(1)
-        if ok and rets == ["ch"]:
+        if ok and rets == [chv]:
             rep.ok("R6-eof", key, "EOF -> io_error")
         else:
             rep.violation("R6-eof", key, "%s:%s" % (rel(f), f["line"]), {"returns": rets, "eof_check_found": ok,
